@@ -74,9 +74,13 @@ def run_schedule(mod, max_size, programs, plan, opcodes=False, idle=None, fail_c
         sched.event(f"create {o.i}")
         return o
 
+    sched.early_expiry = []       # (C09's clause, recorded for its check) a connection closed as idled-out although it had just been given back
+
     def after_remove(o):
         sched.event(f"after_remove {o.i}")
         o.closed += 1
+        if idle is not None and sched.in_get.get(sched.tid()) and getattr(o, "freed_at", None) is not None and clock["t"] - o.freed_at <= 5:
+            sched.early_expiry.append(f"connection {o.i} was closed as idled-out {clock['t'] - o.freed_at:g} s after it was given back (pool_idle_timeout 5)")
     pool = mod.ObjectPool(creator, after_remove=after_remove, max_size=max_size, lock_generator=lambda: SLock(sched),
                           idle_timeout=(5 if idle is not None else 0))
     used, free = make_deques(sched)
@@ -85,6 +89,12 @@ def run_schedule(mod, max_size, programs, plan, opcodes=False, idle=None, fail_c
     if idle is not None:
         pool._idle_clock = lambda: clock["t"]
         Obj.answers, Obj.clock = sched.answers, clock
+        free_append = free.append
+
+        def append_stamped(o):
+            o.freed_at = clock["t"]           # the moment the connection becomes available again
+            free_append(o)
+        free.append = append_stamped
     holding = {}
     viol = []
 
@@ -122,6 +132,8 @@ def run_schedule(mod, max_size, programs, plan, opcodes=False, idle=None, fail_c
                         sched.event(f"work {o.i}")
                         if o.closed:
                             o.reopened = True
+                        if op == "useLong":
+                            clock["t"] += 10          # a call that takes longer than the idle timeout
                         check_invariants("while held")
                         if op.startswith("quit"):
                             try:
